@@ -9,6 +9,8 @@ See DESIGN.md section 3, C08.
 import ast
 
 from ..core import Rule
+from ..facts import facts_of
+from ..contract import entry, eq, member, unpermitted, exit_nodes, refusals, describe_alt
 from ..model import AnalysisError, dotted, unparse, short, itext
 from ..cfg import cfg_of, calls_in_order
 from ..terms import fn_terms, walk, show
@@ -100,6 +102,42 @@ def find_guard(fi, subject, declared):
     return None
 
 
+def guard_contract(fi, subject, declared):
+    """The refusal contract of one GUARDS row, decided on must-facts.  -> (refusing raise nodes, unpermitted exits, Facts, text)"""
+    F = facts_of(fi)
+    subj = entry(subject)
+    if declared.startswith("["):
+        values = set(ast.literal_eval(declared))
+        options = [member(subj, values)]
+        refuse = member(subj, values, False)
+        what = "%s not in %s" % (subject, declared)
+    elif declared.startswith("%"):
+        mod = int(declared[1:])
+
+        def is_mod(k):
+            # <subject> % <block size>, as a truth value or compared with 0
+            texts = [k[1]] if k[0] == "truth" else ([x for x in k[1:] if x != "0"] if k[0] == "==" and "0" in k[1:] else [])
+            for tx in texts:
+                try:
+                    e = ast.parse(tx, mode="eval").body
+                except SyntaxError:
+                    continue
+                if isinstance(e, ast.BinOp) and isinstance(e.op, ast.Mod) and isinstance(e.left, ast.Name) and e.left.id == subj and (
+                        (isinstance(e.right, ast.Constant) and e.right.value == mod) or "block_size" in ast.unparse(e.right)):
+                    return True
+            return False
+        options = [lambda k, t: is_mod(k) and t == (k[0] == "=="), eq("-1", subj)]
+        refuse = lambda k, t: is_mod(k) and t == (k[0] != "==")  # noqa: E731
+        what = "%s %s != 0" % (subject, declared)
+    else:
+        ln, dt = "len(%s)" % subj, "self.%s" % declared
+        options = [eq(ln, dt), eq("-1", dt)]
+        refuse = eq(ln, dt, False)
+        what = "len(%s) != self.%s" % (subject, declared)
+    bad = unpermitted(F, exit_nodes(F), options)
+    return refusals(F, refuse, ("ValueError",)), bad, F, what
+
+
 def check(repo):
     r1 = Rule("R8.1", "every configuration key a scheme consumes is demanded up front")
     r2 = Rule("R8.2", "length contracts exist, dominate the work, and are armed by the schemes")
@@ -109,40 +147,74 @@ def check(repo):
 
     # ------------------------------------------------------------------ R8.1
     cpe = repo.func("schemes/interface/config.py", "SSEConfig.check_param_exist")
-    ok = False
-    for st, exc in raising_ifs(cpe):
-        if exc == "ValueError" and any(isinstance(c, ast.Call) and isinstance(c.func, ast.Attribute) and c.func.attr == "get" for c in ast.walk(st.test)):
-            for a in __import__("sa.model", fromlist=["ancestors"]).ancestors(st):
-                if isinstance(a, ast.For) and isinstance(a.iter, ast.Name) and a.iter.id == cpe.params[0]:
-                    ok = True
-    r1.require(ok, cpe, "check_param_exist raises", "check_param_exist no longer raises ValueError for every missing field of the list")
+    Fc = facts_of(cpe)
+    loops = [st for st in ast.walk(cpe.node) if isinstance(st, ast.For) and isinstance(st.iter, ast.Name) and st.iter.id == cpe.params[0] and isinstance(st.target, ast.Name)]
+    probes = []   # per raising alternative: list of (fact key, truth, index of the probe operand)
+    for n, name, _f in Fc.raises():
+        if name is None or name.split(".")[-1] != "ValueError":
+            continue
+        lp = next((l for l in loops if any(x is n.stmt for x in ast.walk(l))), None)
+        if lp is None:
+            continue
+        for alt in Fc.alts(n.id) or []:
+            conds = []
+            for (k, t) in alt:
+                for i, part in enumerate(k[1:], 1):
+                    try:
+                        e = ast.parse(part, mode="eval").body
+                    except SyntaxError:
+                        continue
+                    if isinstance(e, ast.Call) and isinstance(e.func, ast.Attribute) and e.func.attr == "get" and e.args and \
+                            isinstance(e.args[0], ast.Name) and e.args[0].id == lp.target.id and dotted(e.func.value) in (cpe.params[1], entry(cpe.params[1])):
+                        conds.append((k, t, i, e))
+            if conds:
+                probes.append(conds)
+    r1.require(bool(probes), cpe, "check_param_exist raises", "check_param_exist no longer raises ValueError for every missing field of the list")
+
     # the test must be true both for an absent field and for the placeholder -1 that the DEFAULT_CONFIGs use for
     # "must be determined first" (and which doubles as the only refusal of a negative size)
     def _refuses(value_present, value):
-        for st, exc in raising_ifs(cpe):
-            if exc != "ValueError":
-                continue
-            t = st.test
-            if isinstance(t, ast.Compare) and len(t.ops) == 1 and isinstance(t.left, ast.Call) and isinstance(t.left.func, ast.Attribute) and t.left.func.attr == "get":
+        verdicts = []
+        for conds in probes:
+            ok = True
+            for (k, t, i, e) in conds:
                 default = None
-                if len(t.left.args) > 1:
+                if len(e.args) > 1:
                     try:
-                        default = ast.literal_eval(t.left.args[1])
+                        default = ast.literal_eval(e.args[1])
                     except Exception:
                         return None
-                left = value if value_present else default
-                try:
-                    right = ast.literal_eval(t.comparators[0])
-                except Exception:
-                    return None
-                op = type(t.ops[0])
-                return {ast.Eq: left == right, ast.NotEq: left != right, ast.Is: left is right, ast.IsNot: left is not right,
-                        ast.Lt: (left is not None and right is not None and left < right), ast.LtE: (left is not None and right is not None and left <= right)}.get(op)
-        return None
+                v = value if value_present else default
+                if k[0] == "truth":
+                    res = bool(v)
+                else:
+                    other = k[2] if i == 1 else k[1]
+                    try:
+                        c = ast.literal_eval(other)
+                    except Exception:
+                        return None
+                    try:
+                        if k[0] == "==":
+                            res = v == c
+                        elif k[0] == "is":
+                            res = v is c or (v == c and isinstance(c, (int, type(None))) and type(v) is type(c))
+                        elif k[0] == "in":
+                            res = (v in c) if i == 1 else (c in v)
+                        elif k[0] == "<":
+                            res = (v < c) if i == 1 else (c < v)
+                        else:
+                            return None
+                    except TypeError:
+                        res = False
+                if res != t:
+                    ok = False
+            verdicts.append(ok)
+        return any(verdicts) if verdicts else None
     r1.require(_refuses(False, None) is True, cpe, "absent field refused", "check_param_exist does not refuse an absent field")
     r1.require(_refuses(True, -1) is True, cpe, "placeholder -1 refused",
                "check_param_exist no longer treats the placeholder value -1 as missing: a size of -1 (the DEFAULT_CONFIG marker for 'determine first', and the only guard "
                "against a negative block size) now builds a scheme that returns empty results")
+    r1.require(_refuses(True, 64) is False, cpe, "present field accepted", "check_param_exist refuses a field that is present")
     n_reads = 0
     for s in schemes:
         pc = s.config_cls.methods.get("_parse_config") if s.config_cls else None
@@ -206,22 +278,20 @@ def check(repo):
     # ------------------------------------------------------------------ R8.2 (a) guards
     for rel, qual, subject, declared in GUARDS:
         fi = repo.func(rel, qual)
-        g = find_guard(fi, subject, declared)
-        if not r2.require(g is not None, fi, "guard %s/%s" % (subject, declared),
-                          "%s no longer refuses a %s that violates %s (guard -> raise ValueError missing)" % (qual, subject, declared)):
+        refused, bad, F, what = guard_contract(fi, subject, declared)
+        desc = {"guard": "%s::%s" % (rel, qual), "subject": subject, "declared": declared}
+        if not r2.require(bool(refused), fi, "guard %s/%s" % (subject, declared),
+                          "%s no longer refuses a %s that violates %s (no raise ValueError reached with %s known)" % (qual, subject, declared, what)):
             continue
-        # the guard dominates the work: every value-returning return / every call after it
-        cfg = cfg_of(fi.node)
-        gn = cfg.nodes_of(g)
-        rets = [n for n in cfg.nodes if n.kind == "return" and n.stmt.value is not None]
-        work = rets or [n for n in cfg.nodes if n.kind == "stmt" and n.id > max(gn)]
-        ok = all(cfg.dominates(gn[0], w.id) for w in work) if gn else False
-        r2.require(ok or qual.endswith("__init__"), fi, "guard %s/%s dominates" % (subject, declared),
-                   "%s: the %s check no longer precedes the work on every path" % (qual, subject), g)
-        # skipped only for LENGTH_UNLIMITED
-        txt = unparse(g.test)
-        if "LENGTH_UNLIMITED" in txt or "!=" in txt or "not in" in txt or "%" in txt:
-            r2.ok({"guard": "%s::%s" % (rel, qual), "subject": subject, "declared": declared, "test": txt[:100]})
+        if bad:
+            nid, alt = bad[0]
+            r2.fail_fn(fi, F.cfg.nodes[nid].stmt, "guard %s/%s dominates" % (subject, declared),
+                       "%s: the %s check no longer precedes the work on every path: %s is reached under [%s], where neither the declared %s nor the "
+                       "unlimited marker is established for the caller's %s" % (
+                           qual, subject, "a result" if F.cfg.nodes[nid].kind == "return" else "the end of the function", describe_alt(alt), declared, subject),
+                       witness=desc)
+        else:
+            r2.ok(desc)
     # Luby-Rackoff constructor constraints and Bitwise FFX
     lr = repo.func("toolkit/prp/luby_rackoff_prp.py", "LubyRackoffPRP.__init__")
     r2.require(len([1 for st, exc in raising_ifs(lr) if exc == "ValueError"]) >= 3, lr, "Luby-Rackoff constructor constraints",
@@ -323,54 +393,95 @@ def _check_cross(repo, r3):
             if depth >= 2 and cur.orelse and isinstance(cur.orelse[-1], ast.Raise):
                 chain_ok = True
     r3.require(chain_ok, enc, "Pi2Lev too-large refusal", "Pi2Lev._Enc no longer refuses a posting list that exceeds the two-level capacity")
-    # 4. partition block-size check
+    # 4. partition block-size check: blocks are produced only when block_size >= entries * identifier_size is established
     pf = repo.func("toolkit/database_utils.py", "partition_identifiers_to_blocks")
-    g4 = None
-    for st, exc in raising_ifs(pf):
-        t = itext(pf, st.test)
-        if exc == "ValueError" and "block_size_bytes" in t and "<" in t and "entry_count_in_one_block" in t and "identifier_size" in t:
-            g4 = st
-    if r3.require(g4 is not None, pf, "partition block-size check", "partition_identifiers_to_blocks no longer refuses a block smaller than its entries"):
-        c4 = cfg_of(pf.node)
-        loops = [n.id for n in c4.nodes if n.kind == "for"]
-        r3.require(_dominates_all(c4, c4.nodes_of(g4), loops), pf, "partition block-size check dominates", "blocks are produced before the block size has been checked", g4)
-    # 5. split sum check
+    F4 = facts_of(pf)
+    lst, cnt, idz, bsz = pf.params[:4]
+
+    def _names(txt):
+        try:
+            e = ast.parse(txt, mode="eval").body
+        except SyntaxError:
+            return None
+        if isinstance(e, ast.BinOp) and isinstance(e.op, ast.Mult) and isinstance(e.left, ast.Name) and isinstance(e.right, ast.Name):
+            return {e.left.id, e.right.id}
+        return None
+
+    def too_small(truth):
+        def pred(k, t):
+            return k[0] == "<" and k[1] in (bsz, entry(bsz)) and _names(k[2]) == {entry(cnt), entry(idz)} and t == truth
+        return pred
+    ref4 = refusals(F4, too_small(True))
+    if r3.require(bool(ref4), pf, "partition block-size check", "partition_identifiers_to_blocks no longer refuses a block smaller than its entries"):
+        work = [n.id for n in F4.cfg.nodes if n.id in F4.ins and n.stmt is not None and (
+            n.kind == "for" or any(isinstance(x, (ast.Yield, ast.YieldFrom)) for x in ast.walk(n.ast if n.kind == "test" else n.stmt) if n.kind in ("stmt", "return")))]
+        # a block size the function itself just set to entries * identifier_size needs no check
+        bad4 = unpermitted(F4, work, [too_small(False), lambda k, t: k[0] == "==" and "0" in k[1:] and (bsz in k[1:] or entry(bsz) in k[1:]) and t])
+        r3.require(bool(work) and not bad4, pf, "partition block-size check dominates", "blocks are produced before the block size has been checked" + (
+            " (under [%s])" % describe_alt(bad4[0][1]) if bad4 else ""), F4.cfg.nodes[bad4[0][0]].stmt if bad4 else None)
+    # 5. split sum check: pieces are cut only when len(xbytes) == sum(slice lengths) is established
     sf = repo.func("toolkit/bytes_utils.py", "split_bytes_given_slice_len")
-    g5 = None
-    for st, exc in raising_ifs(sf):
-        t = itext(sf, st.test)
-        if exc == "ValueError" and "len(xbytes)" in t and "sum(" in t and "!=" in t:
-            g5 = st
-    if r3.require(g5 is not None, sf, "split total-length check", "split_bytes_given_slice_len no longer refuses a length mismatch"):
-        c5 = cfg_of(sf.node)
-        loops = [n.id for n in c5.nodes if n.kind in ("for", "test") and isinstance(n.stmt, (ast.While, ast.For))]
-        r3.require(_dominates_all(c5, c5.nodes_of(g5), loops), sf, "split total-length check dominates", "pieces are cut before the total length has been checked", g5)
-    # 6. Bitset value-fits-length
+    F5 = facts_of(sf)
+    xb, sl = sf.params[:2]
+
+    def total(truth):
+        def pred(k, t):
+            if k[0] != "==" or t != truth:
+                return False
+            sides = list(k[1:])
+            ln = "len(%s)" % entry(xb)
+            if ln not in sides:
+                return False
+            other = sides[1 - sides.index(ln)]
+            return other.startswith("sum(") and entry(sl) in other
+        return pred
+    ref5 = refusals(F5, total(False))
+    if r3.require(bool(ref5), sf, "split total-length check", "split_bytes_given_slice_len no longer refuses a length mismatch"):
+        work = [n.id for n in F5.cfg.nodes if n.id in F5.ins and ((n.kind in ("for", "test") and isinstance(n.stmt, (ast.While, ast.For))) or (
+            n.kind == "return" and n.stmt.value is not None))]
+        bad5 = unpermitted(F5, work, [total(True)])
+        r3.require(bool(work) and not bad5, sf, "split total-length check dominates", "pieces are cut before the total length has been checked", F5.cfg.nodes[bad5[0][0]].stmt if bad5 else None)
+    # 6. Bitset value-fits-length: value/length are stored only when no explicit length is given or the value fits it
     bi = repo.func("toolkit/bits.py", "Bitset.__init__")
-    g6 = None
-    for st, exc in raising_ifs(bi):
-        t = itext(bi, st.test)
-        if exc == "ValueError" and "bit_length()" in t and "length" in t and ">" in t:
-            g6 = st
-    if r3.require(g6 is not None, bi, "Bitset value-fits-length check", "Bitset.__init__ no longer refuses a value wider than the explicit length (over-long keywords/counters would be truncated silently)"):
-        c6 = cfg_of(bi.node)
-        stores = [n.id for n in c6.nodes if n.kind == "stmt" and isinstance(n.stmt, ast.Assign) and any(
+    F6 = facts_of(bi)
+    lenp = bi.params[2]
+
+    def too_wide(truth):
+        def pred(k, t):
+            return k[0] == "<" and k[1] in (lenp, entry(lenp)) and k[2].endswith(".bit_length()") and t == truth
+        return pred
+    ref6 = refusals(F6, too_wide(True))
+    if r3.require(bool(ref6), bi, "Bitset value-fits-length check", "Bitset.__init__ no longer refuses a value wider than the explicit length (over-long keywords/counters would be truncated silently)"):
+        stores = [n.id for n in F6.cfg.nodes if n.id in F6.ins and n.kind == "stmt" and isinstance(n.stmt, ast.Assign) and any(
             isinstance(t, ast.Attribute) and t.attr in ("value", "length") for t in n.stmt.targets)]
-        r3.require(_dominates_all(c6, c6.nodes_of(g6), stores), bi, "Bitset check dominates", "Bitset stores value/length before checking the width", g6)
+        no_len = [lambda k, t: k == ("truth", lenp) and not t, lambda k, t: k == ("truth", entry(lenp)) and not t,
+                  lambda k, t: k[0] == "==" and "0" in k[1:] and (lenp in k[1:] or entry(lenp) in k[1:]) and t]
+        bad6 = unpermitted(F6, stores, [too_wide(False)] + no_len)
+        r3.require(bool(stores) and not bad6, bi, "Bitset check dominates", "Bitset stores value/length before checking the width", F6.cfg.nodes[bad6[0][0]].stmt if bad6 else None)
     # registries
     for rel, fn in (("toolkit/prf/__init__.py", "get_prf_implementation"), ("toolkit/prp/__init__.py", "get_prp_implementation"),
                     ("toolkit/symmetric_encryption/__init__.py", "get_symmetric_encryption_implementation"), ("toolkit/hash.py", "get_hash_implementation")):
         fi = repo.func(rel, fn)
-        last = fi.node.body[-1]
-        ends_raise = isinstance(last, ast.Raise) and isinstance(last.exc, ast.Call) and dotted(last.exc.func) == "ValueError"
-        rets = [r for r in ast.walk(fi.node) if isinstance(r, ast.Return)]
-        guarded = all(r.value is not None and isinstance(r.value, ast.Name) for r in rets)
-        # each return is under `if x is not None`
-        for r in rets:
-            par = getattr(r, "_parent", None)
-            if not (isinstance(par, ast.If) and "is not None" in unparse(par.test)):
-                guarded = False
-        r3.require(ends_raise and guarded, fi, "registry refuses unknown names", "%s can return without an implementation or no longer raises ValueError for unknown names" % fn)
+        why = registry_refuses(fi)
+        r3.require(why is None, fi, "registry refuses unknown names", "%s can return without an implementation or no longer raises ValueError for unknown names (%s)" % (fn, why))
+
+
+def registry_refuses(fi):
+    """A name registry: some path raises ValueError, and no path hands back None / an unchecked lookup result.
+    -> None when fine, else the reason."""
+    from ..pathsum import summarize, raising, normal
+    from .. import straight as S
+    paths = summarize(fi, follow_exc=False)
+    if not raising(paths, "ValueError"):
+        return "no path raises ValueError"
+    for p in normal(paths):
+        if not p.returned or p.ret == ("const", None):
+            return "a path ends without returning an implementation [%s]" % describe_alt(p.facts)
+        checked = any((k[0] == "is" and "None" in k[1:] and not t) or (k[0] == "in" and t) or (k[0] == "truth" and t) for (k, t) in p.facts)
+        constructed = p.ret[0] == "var" and p.ret[1][:1].isupper() or (p.ret[0] == "call" and p.ret[1] in (("fn", "functools.partial"),))
+        if not (checked or constructed):
+            return "a path returns %s without having established that the name is known [%s]" % (S.show(p.ret)[:60], describe_alt(p.facts))
+    return None
 
 
 # ----------------------------------------------------------------------------- self-test variants
